@@ -1181,7 +1181,13 @@ enum { PM_X, PM_TOPBIT1, PM_MAX, PM_RANDHI, PM_RANDLO, PM_TOPONE1, PM_IRRED, NPM
 static const char* PMN[NPM] = { "x^k", "x^k+1", "all-ones", "rand-hi-odd", "rand-lo-odd", "X^(n-1)+1", "irreducible" };
 /* irreducible polynomials x^m + x^k3 + x^k2 + x^k1 + 1 (or trinomials, k2 = k1 = 0) of degree m */
 static const unsigned IRR[][4] = { {7,1,0,0},{15,1,0,0},{17,3,0,0},{31,3,0,0},{33,10,0,0},{63,1,0,0},{64,4,3,1},{65,18,0,0},{127,1,0,0},{128,7,2,1},
-	{129,5,0,0},{163,7,6,3},{191,9,0,0},{193,15,0,0},{233,74,0,0},{255,52,0,0},{257,12,0,0},{283,12,7,5},{409,87,0,0},{571,10,5,2} };
+	{129,5,0,0},{163,7,6,3},{191,9,0,0},{193,15,0,0},{233,74,0,0},{255,52,0,0},{257,12,0,0},{283,12,7,5},{409,87,0,0},{571,10,5,2},
+	/* more pentanomials (irreducible: checked with ppIsIrred): every order of m mod B_PER_W against the middle exponents */
+	{131,8,3,2},{139,8,5,3},{197,9,4,2},{200,5,3,2},
+	/* thorough tier only (IRR_QUICK entries above) */
+	{136,8,3,2},{138,8,7,1},{141,10,4,1},{149,10,9,7},{158,8,6,5},{164,10,8,7},{165,9,8,3},{195,8,3,2},{203,8,7,1},{205,9,5,2},{96,10,9,6},
+	{107,9,7,4},{115,8,7,5},{125,7,6,5},{256,10,5,2},{320,4,3,1},{384,12,3,2},{448,11,6,4},{512,8,5,2} };
+#define IRR_QUICK 24
 static int mkpmod(num* o, size_t n, int c)
 {
 	size_t i;
@@ -1375,6 +1381,7 @@ static void fam_pp(void)
 	for (t = 0; t < COUNT_OF(IRR); ++t)
 	{
 		size_t m = IRR[t][0], k3 = IRR[t][1], n = W_OF_B(m);
+		if (!THOROUGH && t >= IRR_QUICK) continue;
 		for (i = 0; i < COUNT_OF(MS); ++i)
 		{
 			mkshape(&a, 2 * n, MS[i]);
@@ -1408,7 +1415,7 @@ static void fam_pp(void)
 	for (t = 0; t < COUNT_OF(IRR); ++t)
 	{
 		size_t m = IRR[t][0], n = W_OF_B(m + 1); bool_t r; int var;
-		if (!THOROUGH && m > 200) continue;
+		if (!THOROUGH && (m > 200 || t >= 20)) continue;
 		for (var = 0; var < 4; ++var)
 		{
 			memset(A, 0, sizeof(A));
@@ -1829,6 +1836,70 @@ static void fam_qr(int what)
 	}
 }
 
+/* ------------------------------------------------------------------ zm: the "pure" Montgomery ring of zmMontCreate (R = 2^l, elements kept as they are):
+   mul: a b R^-1, sqr: a^2 R^-1, inv: a^-1 R^2, div: dv a^-1 R, unity: R (all mod mod).  l ranges over bitlen(mod) .. B_OF_W(n):
+   zm.h says "l need not be a multiple of B_PER_W" and the code requires mod < R <= B^n (the header's "B^n <= R" read with the inequality
+   the implementation asserts and its only callers - l + 2 = B_OF_W(n) - satisfy) */
+static void fam_zm_mont2(void)
+{
+	static const size_t LQ[] = { 1, 2, 3 }, LT[] = { 1, 2, 3, 4, 5, 6, 9 };
+	size_t t, cnt = THOROUGH ? COUNT_OF(LT) : COUNT_OF(LQ); int mc, i, j, li; num mod, a, b;
+	for (t = 0; t < cnt; ++t)
+	{
+		size_t n = THOROUGH ? LT[t] : LQ[t];
+		for (mc = 0; mc < NMC; ++mc)
+		{
+			octet modo[NW * 8]; size_t no, bl, ls[4]; qr_o* r = (qr_o*)QRMEM[0];
+			if (!mkmod(&mod, n, mc) || !mod_is_odd(&mod)) continue;
+			if (n == 1 && mod.v[0] < 3) continue;
+			no = wwOctetSize(mod.v, n);
+			if (W_OF_O(no) != n) continue;
+			wwTo(modo, no, mod.v);
+			if (zmMontCreate_keep(no) > sizeof(QRMEM[0]) || zmMontCreate_deep(no) > sizeof(STACK)) continue;
+			bl = wwBitSize(mod.v, n);
+			ls[0] = B_OF_W(n); ls[1] = bl; ls[2] = bl + 1 <= B_OF_W(n) ? bl + 1 : bl; ls[3] = (bl + B_OF_W(n)) / 2;
+			for (li = 0; li < 4; ++li)
+			{
+				size_t l = ls[li]; int dup = 0;
+				for (i = 0; i < li; ++i) if (ls[i] == l) dup = 1;
+				if (dup) continue;
+				memset(r, 0xA5, zmMontCreate_keep(no));
+				zmMontCreate(r, modo, no, l, STACK);
+#define MB(op_) LB("zz", op_, "def"); jInt("n", n); jInt("l", (long long)l); LW("mod", mod.v, n)
+				MB("mont2Unity"); LW("c", r->unity, n); MKCLS("mod=%s,l=%s", mod.nm, li == 0 ? "nW" : li == 1 ? "bits" : li == 2 ? "bits+1" : "mid"); LE_(CLS, "none");
+				for (i = 0; i < NRES; ++i)
+				{
+					mkres(&a, &mod, i);
+					wwCopy(A, a.v, n); set_fill(C, n, 0x5A);
+					MB("mont2Sqr"); LW("a", A, n); CALL(qrSqr(C, A, r, STACK)); LW("c", C, n);
+					MKCLS("mod=%s,l=%s,a=%s", mod.nm, li == 0 ? "nW" : li == 1 ? "bits" : li == 2 ? "bits+1" : "mid", a.nm); LE_(CLS, "none");
+					if (zzIsCoprime(A, n, mod.v, n, STACK))
+					{
+						set_fill(C, n, 0x5A);
+						MB("mont2Inv"); LW("a", A, n); g_sig = a.nm; CALL(qrInv(C, A, r, STACK)); g_sig = ""; LW("c", C, n);
+						MKCLS("mod=%s,l=%s,a=%s", mod.nm, li == 0 ? "nW" : li == 1 ? "bits" : li == 2 ? "bits+1" : "mid", a.nm); LE_(CLS, "none");
+					}
+					for (j = 0; j < NRES; ++j)
+					{
+						if (!THOROUGH && !(i <= R_ONE || j <= R_ONE || i == R_M1 || j == R_M1 || i == j || j == (i + 1) % NRES)) continue;
+						mkres(&b, &mod, j);
+						wwCopy(A, a.v, n); wwCopy(B_, b.v, n); set_fill(C, n, 0x5A);
+						MB("mont2Mul"); LW("a", A, n); LW("b", B_, n); CALL(qrMul(C, A, B_, r, STACK)); LW("c", C, n);
+						MKCLS("mod=%s,l=%s,a=%s,b=%s", mod.nm, li == 0 ? "nW" : li == 1 ? "bits" : li == 2 ? "bits+1" : "mid", a.nm, b.nm); LE_(CLS, "none");
+						if (zzIsCoprime(B_, n, mod.v, n, STACK))
+						{
+							set_fill(C, n, 0x5A);
+							MB("mont2Div"); LW("dv", A, n); LW("a", B_, n); g_sig = b.nm; CALL(qrDiv(C, A, B_, r, STACK)); g_sig = ""; LW("c", C, n);
+							MKCLS("mod=%s,l=%s,dv=%s,a=%s", mod.nm, li == 0 ? "nW" : li == 1 ? "bits" : li == 2 ? "bits+1" : "mid", a.nm, b.nm); LE_(CLS, "none");
+						}
+					}
+				}
+#undef MB
+			}
+		}
+	}
+}
+
 /* ------------------------------------------------------------------ gf2: fields GF(2^m) built by gf2Create (trinomials / pentanomials) */
 static void fam_gf2(void)
 {
@@ -1837,6 +1908,7 @@ static void fam_gf2(void)
 	{
 		size_t p[4]; qr_o* f = (qr_o*)QRMEM[0]; size_t m = IRR[t][0], n, no; num mod, a, b; octet ao[NW * 8], bo[NW * 8], co[NW * 8]; char c2[160];
 		p[0] = m; p[1] = IRR[t][1]; p[2] = IRR[t][2]; p[3] = IRR[t][3];
+		if (!THOROUGH && t >= IRR_QUICK) continue;
 		/* preconditions of ppRedTrinomial / ppRedPentanomial */
 		if (p[2] == 0 && !(m % 8 != 0 && p[1] > 0 && m - p[1] >= B_PER_W)) continue;
 		if (p[2] != 0 && !(m - p[1] >= B_PER_W && p[1] < B_PER_W)) continue;
@@ -2152,7 +2224,7 @@ int main(int argc, char** argv)
 #define WANT(f) (all || has(argc, argv, f))
 	for (i = 0; i < 1; ++i)
 	{
-		if (WANT("zz")) { fam_zz_add(); fam_zz_mul(); fam_zz_div(); fam_zz_gcd(); fam_zz_gcd_shifted(); fam_zz_jacobi_short(); fam_zz_pow(); fam_zz_rand(); }
+		if (WANT("zz")) { fam_zz_add(); fam_zz_mul(); fam_zz_div(); fam_zz_gcd(); fam_zz_gcd_shifted(); fam_zz_jacobi_short(); fam_zz_pow(); fam_zz_rand(); fam_zm_mont2(); }
 		if (WANT("mod")) fam_zz_mod();
 		if (WANT("red")) fam_zz_red();
 		if (WANT("ww")) { fam_ww(); fam_ww_naf(); }
